@@ -3,4 +3,4 @@ From LTV.C07 Require Import Model.
 From LTV.C08 Require Import Model.
 Set Extraction Optimize.
 Extraction Language OCaml.
-Extraction "extracted/c08_model.ml" load_tree load_uri load_bytes open_paths inode_list magnet_branches.
+Extraction "extracted/c08_model.ml" load_tree load_uri load_bytes open_paths inode_list magnet_branches policy_ok default_policy.
